@@ -583,21 +583,37 @@ func genC07(seed uint64, idx int, tier string) *Plan {
 		}
 		p.Base = b
 		lens := []int{0, 1, 2, 5, 16384, 16385, 16640, 100, 1400}
+		// the first application-data record of either direction is still read
+		// (resp. written) record-wise: its length is drawn from the edges of what
+		// TLS permits (empty; 2^14+256 for TLS 1.3; 2^14+2048 for TLS 1.2)
+		edge := []int{0, 0, 16640, 16639, 16636, 16641, 18432, 18431}
 		n := 1 + r.IntN(6)
+		first23 := true
 		for i := 0; i < n; i++ {
 			typ := []byte{20, 22, 23, 23, 23, 21}[r.IntN(6)]
 			l := lens[r.IntN(len(lens))]
 			if typ != 23 {
 				l = 1 + r.IntN(200)
+			} else if first23 {
+				first23 = false
+				if idx%2 == 0 {
+					l = edge[r.IntN(len(edge))]
+				}
 			}
 			p.Recs = append(p.Recs, TrailerRec{Type: typ, Len: l})
 		}
 		n = 1 + r.IntN(6)
+		first23 = true
 		for i := 0; i < n; i++ {
 			typ := []byte{20, 23, 23, 23, 21}[r.IntN(5)]
 			l := lens[r.IntN(len(lens))]
 			if typ != 23 {
 				l = 1 + r.IntN(200)
+			} else if first23 {
+				first23 = false
+				if idx%2 == 0 {
+					l = edge[r.IntN(len(edge))]
+				}
 			}
 			p.BackRecs = append(p.BackRecs, TrailerRec{Type: typ, Len: l})
 		}
